@@ -312,14 +312,29 @@ def decode(eng, b):
 # regular expressions
 # --------------------------------------------------------------------------
 class SMatch:
-    def __init__(self, s, groups, ngroups, like):
+    def __init__(self, s, groups, ngroups, like, names=None):
         self.s, self._g, self.n, self.like = s, groups, ngroups, like
+        self.names = dict(names or {})
+
+    def _idx(self, i):
+        if isinstance(i, str):
+            if i not in self.names:
+                raise RaiseEx(IndexError('no such group'))
+            return self.names[i]
+        return i
+
+    def __getitem__(self, i):
+        return self.group(i)
+
+    def groupdict(self, default=None):
+        return {k: (self.group(v) if v in self._g else default) for k, v in self.names.items()}
 
     def group(self, *idx):
         if not idx:
             idx = (0,)
         res = []
         for i in idx:
+            i = self._idx(i)
             if i not in self._g:
                 if i > self.n:
                     raise RaiseEx(IndexError('no such group'))
@@ -333,13 +348,15 @@ class SMatch:
         return tuple(self.group(i) if i in self._g else default for i in range(1, self.n + 1))
 
     def start(self, i=0):
+        i = self._idx(i)
         return self._g[i][0] if i in self._g else -1
 
     def end(self, i=0):
+        i = self._idx(i)
         return self._g[i][1] if i in self._g else -1
 
     def span(self, i=0):
-        return self._g.get(i, (-1, -1))
+        return self._g.get(self._idx(i), (-1, -1))
 
     def __bool__(self):
         return True
@@ -535,7 +552,7 @@ def re_match(eng, pattern, string, flags=0, full=False):
     g = _match_at(eng, tree, flags, s, 0, full)
     if g is None:
         return None
-    return SMatch(s, g, tree.state.groups - 1, string)
+    return SMatch(s, g, tree.state.groups - 1, string, tree.state.groupdict)
 
 
 def re_search(eng, pattern, string, flags=0):
@@ -545,7 +562,7 @@ def re_search(eng, pattern, string, flags=0):
     for st in range(len(s) + 1):
         g = _match_at(eng, tree, flags, s, st, False)
         if g is not None:
-            return SMatch(s, g, tree.state.groups - 1, string)
+            return SMatch(s, g, tree.state.groups - 1, string, tree.state.groupdict)
     return None
 
 
@@ -564,7 +581,7 @@ def _iter_matches(eng, pattern, string, flags):
                 break
         if found is None:
             return
-        yield SMatch(s, found, n, string)
+        yield SMatch(s, found, n, string, tree.state.groupdict)
         a, b = found[0]
         pos = b if b > a else b + 1
 
